@@ -270,7 +270,20 @@ def gen_expr(r):
     return ast, p_seq(ast, short=r.chance(0.6))
 
 
-def gen_find_case(r, i):
+def directed_names(r, rows, sq, start, tries=10):
+    """Name parts for which the expression has a justified result (if the random search finds some)."""
+    first = None
+    for _ in range(tries):
+        names = gen_names(r)
+        if first is None:
+            first = names
+        J = justified_targets(rows, sq, start, names, None)
+        if J:
+            return names, sorted(J)
+    return first, []
+
+
+def gen_find_skel(r, i):
     dup = r.chance(0.2)
     g = Gen(r, dup)
     text = g.model(lambda: "x")
@@ -286,12 +299,24 @@ def gen_find_case(r, i):
     if r.chance(0.12):
         for _ in range(r.range(1, 2)):
             post.append([r.below(n), r.choice(ATTRS[:5])])
-    queries = []
+    return {"kind": "find", "model": text, "xrefs": xrefs, "post": post, "queries": [], "cls_expected": g.cls, "dup": dup}
+
+
+def gen_find_queries(r, c, rows):
+    n = len(rows)
     for _ in range(8):
         ast, etext = gen_expr(r)
-        names = gen_names(r)
-        q = {"start": r.below(n), "expr": ("+p:" if r.chance(0.15) else "") + etext, "ast": ast,
-             "cls": None if r.chance(0.35) else r.choice(TYPES), "proxy": r.chance(0.45)}
+        start = r.below(n)
+        if r.chance(0.75):
+            names, J = directed_names(r, rows, ast, start)
+        else:
+            names, J = gen_names(r), []
+        if J and r.chance(0.7):
+            cls = r.choice(rows[r.choice(J)]["conf"] or [None])
+        else:
+            cls = None if r.chance(0.35) else r.choice(TYPES)
+        q = {"start": start, "expr": ("+p:" if r.chance(0.15) else "") + etext, "ast": ast,
+             "cls": cls, "proxy": r.chance(0.45)}
         form = r.weighted([("list", 5), ("dot", 3), ("sep", 2)])
         if form == "list":
             q["name"], q["names"] = names, names
@@ -300,8 +325,7 @@ def gen_find_case(r, i):
         else:
             sep = r.choice(["/", "::", "--", "."])
             q["name"], q["names"], q["split"] = messy_join(r, names, sep), names, sep
-        queries.append(q)
-    return {"kind": "find", "model": text, "xrefs": xrefs, "post": post, "queries": queries, "cls_expected": g.cls, "dup": dup}
+        c["queries"].append(q)
 
 
 def messy_join(r, names, sep):
@@ -318,14 +342,15 @@ def messy_join(r, names, sep):
     return s
 
 
-def gen_glue_case(r, i):
+def gen_glue_skel(r, i):
     dup = r.chance(0.1)
     g = Gen(r, dup)
     split = r.weighted([(None, 5), ("/", 3), (":", 1)])
-    sep = split or "."
+    cnt = [0]
 
     def refname():
-        return messy_join(r, gen_names(r) or ["a"], sep) if r.chance(0.2) else sep.join(gen_names(r) or ["a"])
+        cnt[0] += 1
+        return "@%d@" % (cnt[0] - 1)
     text = g.model(refname)
     if "Ref" not in g.cls:
         text += " ref " + refname()
@@ -334,9 +359,25 @@ def gen_glue_case(r, i):
     while "links" in etext or "zzz" in etext:       # only attributes the grammar defines
         ast, etext = gen_expr(r)
     flags = "+p:" if r.chance(0.4) else ""
-    return {"kind": "glue", "model": text, "expr": flags + etext, "ast": ast, "proxy": bool(flags), "split": split,
-            "via": "grammar" if r.chance(0.6) else "register", "cls": r.choice(["Item", "Cls", "Mem", "Pkg", "Item", "Mem"]),
+    return {"kind": "glue", "template": text, "expr": flags + etext, "ast": ast, "proxy": bool(flags), "split": split,
+            "via": "grammar" if r.chance(0.6) else "register", "cls": None,
             "cls_expected": g.cls, "dup": dup}
+
+
+def fill_glue(r, c, rows):
+    sep = c["split"] or "."
+    text = c.pop("template")
+    refs = [i for i, row in enumerate(rows) if row["cls"] == "Ref"]
+    confs = []
+    for k, ri in enumerate(refs):
+        names, J = directed_names(r, rows, c["ast"], ri, tries=14) if r.chance(0.9) else (gen_names(r), [])
+        names = names or ["a"]
+        for t in J:
+            confs += rows[t]["conf"]
+        nm = messy_join(r, names, sep) if r.chance(0.2) else sep.join(names)
+        text = text.replace("@%d@" % k, nm)
+    c["model"] = text
+    c["cls"] = r.choice(confs) if confs and r.chance(0.8) else r.choice(["Item", "Cls", "Mem", "Pkg"])
 
 
 # ------------------------------------------------------------------ Coq terms
@@ -607,17 +648,32 @@ def run(chk):
     cases = load_corpus()
     ncorpus = len(cases)
     for i in range(nfind):
-        cases.append(gen_find_case(chk.rng.split("f%d" % i), i))
+        cases.append(gen_find_skel(chk.rng.split("f%d" % i), i))
     for i in range(nglue):
-        cases.append(gen_glue_case(chk.rng.split("g%d" % i), i))
+        cases.append(gen_glue_skel(chk.rng.split("g%d" % i), i))
+    # phase A: the object graphs (no queries yet); phase B: queries directed by the specification
+    skel = [{"kind": "find", "model": re.sub(r"@\d+@", "x", c.get("template") or c["model"]), "xrefs": c.get("xrefs", []),
+             "post": c.get("post", []), "queries": []} for c in cases]
+    nproc = max(1, min(core.NPROC, len(cases)))
+    chunks = [list(range(i, len(cases), nproc)) for i in range(nproc)]
+    outs = core.run_impl_parallel("c11", [{"cases": [skel[i] for i in ch]} for ch in chunks])
+    for ch, o in zip(chunks, outs):
+        for i, x in zip(ch, o):
+            c = cases[i]
+            if "corpus" in c:
+                continue
+            if "rows" not in x:
+                raise RuntimeError("runner could not load a generated model: %r %r" % (skel[i]["model"], x))
+            if c["kind"] == "find":
+                gen_find_queries(chk.rng.split("q%d" % i), c, x["rows"])
+            else:
+                fill_glue(chk.rng.split("q%d" % i), c, x["rows"])
     payload_cases = [{k: v for k, v in c.items() if k not in ("cls_expected", "dup", "corpus")} for c in cases]
     for pc in payload_cases:
         if pc["kind"] == "find":
             pc["queries"] = [{k: v for k, v in q.items() if k not in ("ast", "names")} for q in pc["queries"]]
         else:
             pc.pop("ast", None)
-    nproc = max(1, min(core.NPROC, len(cases)))
-    chunks = [list(range(i, len(cases), nproc)) for i in range(nproc)]
     outs = core.run_impl_parallel("c11", [{"cases": [payload_cases[i] for i in ch]} for ch in chunks])
     impl = [None] * len(cases)
     for ch, o in zip(chunks, outs):
@@ -769,6 +825,9 @@ def run(chk):
                         "type names used in parent(T) / target type exist in the meta-model",
                         "completeness is proved only for searches that never hit the visited set; in general it is checked by the oracle on the generated cases",
                         "glue stream: the answer of the load is compared with find on the finished object graph"]
+    if disagreements or failures:
+        with open(chk.replay_path("details.json"), "w") as f:
+            json.dump({"disagreements": disagreements[:20], "failures": failures[:20]}, f, indent=1, default=str)
     decide(chk, failures, disagreements)
 
 
